@@ -1067,7 +1067,7 @@ func init() {
 				addDiff(h.Finding{Stage: st.Name, Kind: "diff", What: "exit status", Input: cs.key, Config: cfg, Impl: fmt.Sprintf("%d stderr=%q", cs.run.Exit, cs.run.Stderr), Model: string(items[0])})
 			}
 			if !bytes.Equal(items[1], cs.run.Stdout) {
-				addDiff(h.Finding{Stage: st.Name, Kind: "diff", What: "stdout", Input: cs.key, Config: cfg, Impl: h.Q(c20Clip(cs.run.Stdout)), Model: h.Q(c20Clip(items[1]))})
+				addDiff(h.Finding{Stage: st.Name, Kind: "diff", What: "stdout", Input: cs.key, Config: cfg, Impl: h.Q(c20clip(cs.run.Stdout)), Model: h.Q(c20clip(items[1]))})
 			}
 			if ok, why := treeEq(cs.run.Tree, mtree); !ok {
 				addDiff(h.Finding{Stage: st.Name, Kind: "diff", What: "resulting tree: " + why, Input: cs.key, Config: cfg, Impl: treeStr(cs.run.Tree), Model: treeStr(mtree)})
